@@ -19,7 +19,7 @@ func TestMain(m *testing.M) {
 			"acyclic controls; one dependency request per target, as dawn's targets do) and a schedule for the cooperative token scheduler that owns every "+
 			"scheduling point of runner.go (uniform choice, or run-until-block with <=3 preemptions) or a delay table for free-running execution; the "+
 			"parallelism limit is the shard's CPU affinity (1,2,3,4,16). A fixed catalogue of tiny graphs is additionally run under EVERY schedule with "+
-			"<=2 preemptions (bounded exhaustive). Oracle: the run finishes (the scheduler never confirms an all-parked state; stragglers after Run "+
+			"<=2 preemptions, plain or parking the preempted goroutine until nothing else can run (bounded exhaustive), and under generated PCT priority schedules (random priorities, 0-2 priority drops). Oracle: the run finishes (the scheduler never confirms an all-parked state; stragglers after Run "+
 			"returns are driven to completion); reachable cycle => Run fails and some target receives a CyclicDependencyError; acyclic => nobody does. "+
 			"Non-trivial = cyclic reachable graph with >=2 goroutines inside EvaluateTargets at once, or an acyclic graph of depth >=3. Distinct by case JSON.",
 		"termination is decided on generated graphs and schedules only; a watchdog hit without a confirmed all-parked dump is inconclusive",
